@@ -181,10 +181,6 @@ def run(ck, m):
         ck.ob('C05.d', short(sb.id), 'invalid-flag-cleans-before-build', ok,
               'on the invalid branch the oplog metadata is removed before Databases is built' if ok else
               'Databases can be built from stale oplog metadata after an invalid flag', sb.loc(vbi))
-        # the flag handed to the constructor is the value read
-        arg = sb.term(cbi)['args'][-1]
-        same = any(r[0] == 'call' and r[1] == vbi for r in origins(sb, arg, stop_at_calls=True))
-        ck.ob('C05.d', short(sb.id), 'flag-passed-on', same, 'create_init_dbs receives the flag that was read', sb.loc(cbi))
     # since == 0 -> full
     okz = False
     for bl in entry.blocks:
